@@ -375,6 +375,17 @@ class CTree:
                     v = None
                 if isinstance(v, int):
                     return ('int', v)
+                # a `const` table of string literals reads like the literal array it names
+                try:
+                    body = PROG.crate(cn).fn(t[1])
+                except Exception:
+                    body = None
+                if body is not None and body.kind == 'const':
+                    arrs = [s_['rv'] for b_ in sorted(body.reach) for s_ in body.blocks[b_]['s'] if s_.get('k') == 'assign' and s_['rv'].get('k') == 'agg' and s_['rv'].get('ak') == 'array']
+                    if len(arrs) == 1:
+                        vals = [body.operand_tree(x) for x in arrs[0]['xs']]
+                        if vals and all(isinstance(v2, tuple) and v2[0] == 'str' for v2 in vals):
+                            return tuple(['array'] + vals)
             return t
         if h in ('int', 'str', 'item', 'fnref', 'float', 'const', 'arg', 'bytes'):
             return t
